@@ -1,8 +1,163 @@
-/- Driver handler of C11: protocol line (already split into tokens, without the leading "c11") -> answer. -/
+/- Driver handler of C11: protocol line (split into tokens, first token "c11") -> answer. -/
 import Pycel.Model.Proto
+import Pycel.Model.Addr
 namespace Pycel.Drv.C11
+open Pycel Pycel.Addr
+
+def txt? (tok : String) : Option Str :=
+  if tok.startsWith "s:" then decText? (tok.drop 2).toString else none
+
+def optNat? (tok : String) : Option (Option Nat) :=
+  if tok = "-" then some none else tok.toNat?.map some
+
+def anchor? (tok : String) : Option (Option (Nat × Nat)) :=
+  if tok = "-" then some none else
+  match tok.splitOn "," with
+  | [c, r] => match c.toNat?, r.toNat? with
+    | some c, some r => some (some (c, r))
+    | _, _ => none
+  | _ => none
+
+def fmtAddr (a : Addr) : String :=
+  let k := if a.isRange then "R" else "C"
+  s!"A {k} {encText a.rect.sheet} {a.rect.c1} {a.rect.r1} {a.rect.c2} {a.rect.r2} {a.height} {a.width} {encText a.address}"
+
+def fmtCreated : Except PyErr Created → String
+  | .ok (.addr a) => fmtAddr a
+  | .ok (.code s) => "E " ++ encText s
+  | .error e => e.enc
+
+def fmtOperand : Except PyErr Operand → String
+  | .ok (.addr a) => fmtAddr a
+  | .ok (.err s) => "E " ++ encText s
+  | .error e => e.enc
+
+def shortOperand : Except PyErr Operand → String
+  | .ok (.addr a) => encText a.address
+  | .ok (.err s) => "E" ++ encText s
+  | .error e => e.enc
+
+def operandOf (t : Str) : Except PyErr Operand :=
+  match create t [] none with
+  | .ok (.addr a) => .ok (.addr a)
+  | .ok (.code s) => .ok (.err s)
+  | .error e => .error e
+
+def comb (isInter : Bool) (x y : Except PyErr Operand) : Except PyErr Operand :=
+  match x, y with
+  | .ok a, .ok b => Operand.combine isInter a b
+  | .error e, _ => .error e
+  | _, .error e => .error e
+
+def fmtCells (cs : List Cell) : String := ",".intercalate (cs.map fun c => s!"{c.col}.{c.row}")
+def fmtGrid (g : List (List Cell)) : String := ";".intercalate (g.map fmtCells)
 
 def handle : List String → String
+  | ["c11", "parse", mode, t, sh, an] =>
+    match txt? t, txt? sh, anchor? an with
+    | some t, some sh, some an =>
+      fmtCreated (if mode = "C" then createCell t sh an else create t sh an)
+    | _, _, _ => "!bad-arg"
+  | ["c11", "tuple", mode, c1, r1, c2, r2, sh] =>
+    match optNat? c1, optNat? r1, optNat? c2, optNat? r2, txt? sh with
+    | some c1, some r1, some c2, some r2, some sh =>
+      let b : Bounds := ⟨c1, r1, c2, r2⟩
+      match (if mode = "C" then cellOfTuple sh b else rangeOfTuple sh b) with
+      | .error e => e.enc
+      | .ok a =>
+        let back (s : Str) := fmtCreated (create s [] none)
+        s!"{fmtAddr a} P {encText a.quotedAddress} {encText a.absAddress} {encText a.coordinate} {encText a.absCoordinate}"
+          ++ s!" B {back a.address} ; {back a.quotedAddress} ; {back a.absAddress} ; {back a.coordinate} ; {back a.absCoordinate}"
+    | _, _, _, _, _ => "!bad-arg"
+  | ["c11", "comb", op, a, b] =>
+    match txt? a, txt? b with
+    | some a, some b => fmtOperand (comb (op = "i") (operandOf a) (operandOf b))
+    | _, _ => "!bad-arg"
+  | ["c11", "comb3", op, side, a, b, c] =>
+    match txt? a, txt? b, txt? c with
+    | some a, some b, some c =>
+      let i := op = "i"
+      if side = "l" then fmtOperand (comb i (comb i (operandOf a) (operandOf b)) (operandOf c))
+      else fmtOperand (comb i (operandOf a) (comb i (operandOf b) (operandOf c)))
+    | _, _, _ => "!bad-arg"
+  | "c11" :: "assoc" :: op :: a :: b :: cs =>
+    match txt? a, txt? b, cs.mapM txt? with
+    | some a, some b, some cs =>
+      let i := op = "i"
+      let oa := operandOf a
+      let ob := operandOf b
+      let ab := comb i oa ob
+      " ".intercalate (cs.map fun c =>
+        let oc := operandOf c
+        shortOperand (comb i ab oc) ++ " " ++ shortOperand (comb i oa (comb i ob oc)))
+    | _, _, _ => "!bad-arg"
+  | ["c11", "offset", t, ri, ci, rj, cj] =>
+    match txt? t, ri.toInt?, ci.toInt?, rj.toInt?, cj.toInt? with
+    | some t, some ri, some ci, some rj, some cj =>
+      match create t [] none with
+      | .ok (.addr a) =>
+        let c0 : Cell := ⟨a.rect.sheet, a.rect.c1, a.rect.r1⟩
+        let f (c : Cell) := fmtCreated ((mkCell c.sheet c.col c.row).map .addr)
+        let x1 := c0.offset ri ci
+        s!"{f x1} ; {f (x1.offset rj cj)} ; {f (c0.offset (ri + rj) (ci + cj))} ; " ++
+          s!"{f (c0.offset (ri + MAX_ROW) (ci - MAX_COL))} ; I {incCol a.rect.c1 ci} {incRow a.rect.r1 ri}"
+      | .ok (.code _) => PyErr.attribute.enc
+      | .error e => e.enc
+    | _, _, _, _, _ => "!bad-arg"
+  | ["c11", "enum", t] =>
+    match txt? t with
+    | some t =>
+      match create t [] none with
+      | .ok (.addr a) =>
+        let u := if a.isUnbounded then "1" else "0"
+        let head := s!"S {a.height} {a.width} U {u}"
+        if a.isRange then
+          let res := if a.isUnbounded then PyErr.assertion.enc else fmtGrid a.rect.rows
+          s!"{head} ROWS {fmtGrid a.rect.rows} COLS {fmtGrid a.rect.cols} RES {res}"
+        else s!"{head} RES {fmtGrid [[⟨a.rect.sheet, a.rect.c1, a.rect.r1⟩]]}"
+      | .ok (.code _) => PyErr.attribute.enc
+      | .error e => e.enc
+    | none => "!bad-arg"
+  | ["c11", "contains", r, c] =>
+    match txt? r, txt? c with
+    | some r, some c =>
+      match create r [] none with
+      | .ok (.addr a) =>
+        match createCell c [] none with
+        | .ok (.addr x) => if a.containsCell x then "b:1" else "b:0"
+        | .ok (.code _) => PyErr.valueError.enc
+        | .error e => e.enc
+      | .ok (.code _) => PyErr.attribute.enc
+      | .error e => e.enc
+    | _, _ => "!bad-arg"
+  | ["c11", "quote", s] =>
+    match txt? s with
+    | some s => encText (quoteSheet s)
+    | none => "!bad-arg"
+  | ["c11", "unquote", s] =>
+    match txt? s with
+    | some s => encText (unquoteSheetname s)
+    | none => "!bad-arg"
+  | ["c11", "split", t, sh] =>
+    match txt? t, txt? sh with
+    | some t, some sh =>
+      match splitSheetname t sh with
+      | .ok (a, b) => encText a ++ " " ++ encText b
+      | .error e => e.enc
+    | _, _ => "!bad-arg"
+  | ["c11", "nota", c1, r1, c2, r2, ac, ar] =>
+    match c1.toNat?, r1.toNat?, c2.toNat?, r2.toNat?, ac.toNat?, ar.toNat? with
+    | some c1, some r1, some c2, some r2, some ac, some ar =>
+      let isCell := c1 = c2 && r1 = r2
+      let an := some (ac, ar)
+      let two (f : Nat → Nat → Str) : Str := if isCell then f c1 r1 else f c1 r1 ++ ':' :: f c2 r2
+      let rel (wr wc : Int) (c r : Nat) : Str := r1c1Rel ((r : Int) - ar + wr) ((c : Int) - ac + wc)
+      let texts : List Str := [two cellCoord, two cellAbsCoord, two r1c1Abs, two (rel 0 0),
+        two (rel (MAX_ROW : Int) (-(MAX_COL : Int)))]
+      let viaTuple := if isCell then cellOfTuple [] ⟨some c1, some r1, some c2, some r2⟩
+        else rangeOfTuple [] ⟨some c1, some r1, some c2, some r2⟩
+      " ; ".intercalate (texts.map (fun t => fmtCreated (create t [] an)) ++ [fmtCreated (viaTuple.map .addr)])
+    | _, _, _, _, _, _ => "!bad-arg"
   | _ => "!bad-op"
 
 end Pycel.Drv.C11
